@@ -201,6 +201,50 @@ class VariableNew(Contract):
 CONTRACTS += [VariableNew(c, r) for c in ('PseudoNetCDFVariable', 'PseudoNetCDFMaskedVariable') for r in (0, 1, 2, 4)]
 
 
+class CopyWith(Contract):
+    """_copywith(props=True, dimensions=True): a NEW file object of the same class with the same global attributes (names in
+    order, values) and the same dimensions (names in order, lengths, unlimited flags), sharing no dimension object with the source"""
+    prop = 'C01'
+    target = F + '::PseudoNetCDFFile._copywith'
+
+    def __init__(self, ndims):
+        self.ndims = ndims
+        self.name = '_copywith[%d dimensions]' % ndims
+
+    def inputs(self, ctx, I):
+        names = ['t', 'z', 'y', 'x'][:self.ndims]
+        self.lens = {d: ctx.fresh('len_' + d) for d in names}
+        self.unl = {d: ctx.fresh('unl_' + d, 'Bool') for d in names}
+        self.attrs = dict(title=ctx.fresh('title_id'), scale=ctx.fresh('scale', 'Real'))
+        f = pnc_file(I, dimensions={d: dim_obj(I, d, self.lens[d], self.unl[d]) for d in names}, attrs=self.attrs)
+        for d in names:
+            f.attrs['dimensions'][d].attrs['name'] = d
+        return dict(self=f)
+
+    def requires(self, inp):
+        return And(*[ge(n, 0) for n in self.lens.values()])
+
+    def ensures(self, inp, res, I):
+        if not isinstance(res, Obj):
+            return [('returns-file', False)]
+        src = inp['self']
+        d0, d1 = src.attrs['dimensions'], res.attrs.get('dimensions')
+        out = [('new-object', res is not src), ('same-class', res.cls is src.cls),
+               ('attribute-names-in-order', res.attrs.get('_ncattrs') == src.attrs['_ncattrs']),
+               ('attribute-values', And(*[eq(res.attrs.get(k), v) for k, v in self.attrs.items()])),
+               ('dimension-names-in-order', isinstance(d1, dict) and list(d1) == list(d0))]
+        if isinstance(d1, dict) and list(d1) == list(d0):
+            for k in d0:
+                out.append(('dimension %s: length and unlimited flag' % k, And(eq(d1[k].attrs['_len'], self.lens[k]), eq(d1[k].attrs['_unlimited'], self.unl[k]))))
+                out.append(('dimension %s: not shared with the source' % k, d1[k] is not d0[k]))
+        out.append(('no-variables-copied', res.attrs.get('variables') == {}))
+        out.append(('source-unchanged', And(*[And(eq(d0[k].attrs['_len'], self.lens[k]), eq(d0[k].attrs['_unlimited'], self.unl[k])) for k in d0]) if d0 else True))
+        return out
+
+
+CONTRACTS += [CopyWith(n) for n in (0, 1, 3)]
+
+
 # ---------------------------------------------------------------------------
 # bounded stand-in
 # ---------------------------------------------------------------------------
